@@ -78,6 +78,14 @@ func (r *Reconciler) Reconcile(ctx context.Context, request reconcile.Request) (
 		return r.updateExtendedDaemonsetSetting(ctx, instance, newStatus)
 	}
 
+	if _, err = metav1.LabelSelectorAsSelector(&instance.Spec.NodeSelector); err != nil {
+		// without this the selector is only converted while iterating over nodes: with no node it went unnoticed
+		newStatus.Error = fmt.Sprintf("invalid nodeSelector, err:%v", err)
+		newStatus.Status = datadoghqv1alpha1.ExtendedDaemonsetSettingStatusError
+
+		return r.updateExtendedDaemonsetSetting(ctx, instance, newStatus)
+	}
+
 	edsNodesList := &datadoghqv1alpha1.ExtendedDaemonsetSettingList{}
 	if err = r.client.List(ctx, edsNodesList, &client.ListOptions{Namespace: instance.Namespace}); err != nil {
 		return r.updateExtendedDaemonsetSetting(ctx, instance, newStatus)
